@@ -31,6 +31,7 @@ DROP_FIELDS = {
     "breakpoint_id", "id",
 }
 
+ORIGIN = {}        # id(event) -> library class that created an event a harness worker passes on (see from_lib)
 TRAITS = {}        # family -> set of {"strkeys", "modrng", "hashroute"} (C03 non-triviality declaration)
 SCENARIOS = {}     # family -> builder(case) -> Scenario
 
@@ -43,7 +44,7 @@ class Scenario:
         self._extra = extra
         self._roots = list(entities)
         self.entities = discover(sim, self._roots)
-        self.classes = {type(e).__name__ for e in self.entities if _is_lib(type(e))}
+        self.classes = {n for n in (lib_class_name(e) for e in self.entities) if n}
         self.classes |= {n for n in _aux_classes(self.entities)}
 
     def stats(self):
@@ -72,6 +73,15 @@ class Scenario:
         if self._extra is not None:
             out["extra"] = jsonable(self._extra())
         return out
+
+
+def lib_class_name(obj):
+    """Name of the nearest library class in the MRO of ``obj`` (a harness subclass of an abstract library
+    component counts as that component); None for pure harness entities."""
+    for c in type(obj).__mro__:
+        if _is_lib(c):
+            return None if c.__name__ in ("Entity", "ABC", "object") else c.__name__
+    return None
 
 
 def _is_lib(cls):
@@ -205,6 +215,7 @@ def build(case):
     seed = case.get("seed", 0) if isinstance(case, dict) else 0
     seed = int(seed) if isinstance(seed, (int, bool)) else 0
     seed_globals(abs(seed))
+    ORIGIN.clear()
     c = {"family": fam, "seed": abs(seed), "k": K(case)}
     sc = SCENARIOS[fam](c)
     sc.family = fam
@@ -305,6 +316,19 @@ def mksim(entities, end_ticks, sources=(), events=(), probes=()):
     return sim
 
 
+def from_lib(component, evs):
+    """A harness worker that schedules events *created by a library call* (``return topic.subscribe(...)``,
+    ``evs = yield from topic.publish(msg)``) registers their origin, so that C07 attributes a stale timestamp
+    to the component that stamped the event and not to the worker that merely returned it."""
+    if evs is None:
+        return None
+    lst = evs if isinstance(evs, list) else [evs]
+    name = lib_class_name(component) or type(component).__name__
+    for e in lst:
+        ORIGIN[id(e)] = (name, e)          # keeps the event alive, so the id stays unique during the run
+    return evs
+
+
 def pick(seq, i):
     return seq[i % len(seq)]
 
@@ -362,7 +386,8 @@ def req_ctx(seed, dl_ticks=8):
     def fn(time, count):
         return {"created_at": time, "request_id": count, "prio": r.randrange(4), "flow": r.randrange(3),
                 "dl_ns": time.nanoseconds + (1 + r.randrange(dl_ticks)) * TICK, "key": f"key-{r.randrange(12)}",
-                "metadata": {"processing_time": ticks(1 + r.randrange(4)), "weight": 1}}
+                "metadata": {"processing_time": ticks(1 + r.randrange(4)), "weight": 1,
+                             "client_id": f"client-{r.randrange(9)}", "payload_size": 100 * (1 + r.randrange(8))}}
     return fn
 
 
@@ -418,20 +443,36 @@ def f_pipeline_poisson(case):
     return Scenario(sim, workload=int(rate * 1.5 * stop / 512) + 10)
 
 
+class _Sine:
+    """Smooth periodic rate profile (a Profile implementation: get_rate(Instant) -> float)."""
+
+    def __init__(self, base, amp):
+        self.base, self.amp = base, amp
+
+    def get_rate(self, time):
+        import math
+        return self.base + self.amp * math.sin(time.to_seconds() * 2.0)
+
+
 @family("pipeline_profile", "modrng")
 def f_pipeline_profile(case):
     from happysimulator.components.server.concurrency import DynamicConcurrency, WeightedConcurrency
     from happysimulator.components.server.server import Server
-    from happysimulator.load.profile import LinearRampProfile, SpikeProfile
+    from happysimulator.load.profile import LinearRampProfile
     k = K(case)
     cnt = HCounter("counter")
     conc = [2, DynamicConcurrency(initial=2, min_limit=1, max_limit=4), WeightedConcurrency(total_capacity=3)][k[0] % 3]
     srv = Server("srv", concurrency=conc, service_time=ExponentialLatency(ticks(1 + k[1] % 4)),
                  queue_capacity=[None, 5][k[2] % 2], downstream=cnt)
+    # NOTE the library integrates the profile with adaptive Simpson at tol 1e-10 while Instant.from_seconds
+    # quantises the argument to 1 ns: a profile whose slope exceeds a few units/s^2 (or any step, e.g. SpikeProfile
+    # inside the horizon) makes next_arrival_time() recurse 2^50 deep (minutes of wall time, not a simulated-time
+    # issue), so the generated profiles are smooth with slope <= 4/s.
     if k[3] % 2:
-        prof = LinearRampProfile(duration_s=0.5, start_rate=20.0 + k[4] % 30, end_rate=120.0 + k[5] % 60)
+        r0 = 90.0 + k[4] % 30
+        prof = LinearRampProfile(duration_s=2.0, start_rate=r0, end_rate=r0 + 2 + k[5] % 6)
     else:
-        prof = SpikeProfile(baseline_rate=30.0 + k[4] % 20, spike_rate=200.0 + k[5] % 100, warmup_s=0.2, spike_duration_s=0.15)
+        prof = _Sine(90.0 + k[4] % 40, 1.0 + (k[5] % 3) * 0.5)
     stop = 320
     src = Source.with_profile(prof, poisson=bool(k[6] % 2), name="prof",
                               event_provider=SimpleEventProvider(srv, "Request", T(stop), context_fn=req_ctx(case["seed"])))
@@ -509,4 +550,669 @@ def f_async_server(case):
     src = const_source("src", srv, 1, n, case["seed"])
     src2 = poisson_source("src2", srv, 150.0, n, case["seed"] + 5)
     sim = mksim([srv, sink], n + 200, sources=[src, src2])
+    return Scenario(sim, workload=2 * n)
+
+
+# ------------------------------------------------------------------------------ industrial
+@family("industrial_line", "modrng")
+def f_industrial_line(case):
+    from happysimulator.components import industrial as ind
+    k = K(case)
+    good, bad_a, bad_b, other = Sink("good"), Sink("scrap_a"), Sink("scrap_b"), Sink("other")
+    router = ind.ConditionalRouter.by_context_field("router", "flow", {0: bad_a, 1: bad_b}, default=other)
+    pooled = ind.PooledCycleResource("pooled", pool_size=1 + k[0] % 3, cycle_time=ticks(1 + k[1] % 4), downstream=good,
+                                     queue_capacity=[0, 2, 6][k[2] % 3])
+    batch = ind.BatchProcessor("batch", pooled, batch_size=2 + k[3] % 4, process_time=ticks(1 + k[4] % 3),
+                               timeout_s=[0.0, ticks(3), ticks(7)][k[5] % 3])
+    insp = ind.InspectionStation("inspect", pass_target=batch, fail_target=router, inspection_time=ticks(1 + k[6] % 2),
+                                 pass_rate=[0.95, 0.7, 0.5][k[7] % 3])
+    belt = ind.ConveyorBelt("belt", insp, transit_time=ticks(1 + k[1] % 5), capacity=[0, 3][k[0] % 2])
+    appts = ind.AppointmentScheduler("appts", belt, [ticks(2 * i + 1) for i in range(20)], no_show_rate=[0.0, 0.3][k[2] % 2])
+    n = 40
+    src = const_source("src", belt, 1 + k[3] % 2, n, case["seed"])
+    src2 = poisson_source("walkin", belt, 90.0, n, case["seed"] + 11)
+    sim = mksim([belt, insp, batch, pooled, router, appts, good, bad_a, bad_b, other], n + 300, sources=[src, src2],
+                events=appts.start_events())
+    return Scenario(sim, workload=2 * n + 20)
+
+
+@family("industrial_gate_shift", "modrng")
+def f_industrial_gate_shift(case):
+    from happysimulator.components import industrial as ind
+    k = K(case)
+    sink = Sink("sink")
+    shifts, t0 = [], 0
+    for i in range(4):
+        ln = 4 + (k[i] % 12)
+        shifts.append(ind.Shift(ticks(t0), ticks(t0 + ln), (k[(i + 1) % 8] + i) % 3))
+        t0 += ln + (k[i + 4] % 3) * 2
+    srv = ind.ShiftedServer("shifted", ind.ShiftSchedule(shifts, default_capacity=k[7] % 2), service_time=ticks(1 + k[6] % 3),
+                            downstream=sink)
+    gate = ind.GateController("gate", srv, schedule=[(ticks(10 + k[0] % 5), ticks(30 + k[1] % 9)), (ticks(50), ticks(70 + k[2] % 9))],
+                              initially_open=bool(k[3] % 2), queue_capacity=[0, 4][k[4] % 2])
+    brk = ind.BreakdownScheduler("breakdown", srv, mean_time_to_failure=ticks(20 + k[5] % 20), mean_repair_time=ticks(3 + k[6] % 5))
+    n = 60
+    src = const_source("src", gate, 1 + k[5] % 2, n, case["seed"])
+    src2 = poisson_source("src2", gate, 100.0, n, case["seed"] + 1)
+    sim = mksim([gate, srv, brk, sink], n + 250, sources=[src, src2], events=gate.start_events() + [brk.start_event()])
+    return Scenario(sim, workload=2 * n)
+
+
+@family("industrial_inventory", "modrng")
+def f_industrial_inventory(case):
+    from happysimulator.components import industrial as ind
+    k = K(case)
+    ful, out, waste, sup = Sink("fulfilled"), Sink("stockout"), Sink("waste"), Sink("supplier")
+    inv = ind.InventoryBuffer("inv", initial_stock=3 + k[0] % 10, reorder_point=1 + k[1] % 4, order_quantity=2 + k[2] % 8,
+                              lead_time=ticks(2 + k[3] % 10), supplier=sup, downstream=ful, stockout_target=out)
+    per = ind.PerishableInventory("perish", initial_stock=3 + k[4] % 10, shelf_life_s=ticks(6 + k[5] % 30),
+                                  spoilage_check_interval_s=ticks(3 + k[6] % 6), reorder_point=1 + k[1] % 4,
+                                  order_quantity=2 + k[2] % 8, lead_time=ticks(2 + k[7] % 10), downstream=ful, waste_target=waste)
+    n = 60
+    a = const_source("ca", inv, 1 + k[0] % 3, n, case["seed"], etype="Consume")
+    b = poisson_source("cb", per, 120.0, n, case["seed"] + 2, etype="Consume")
+    c = poisson_source("cc", inv, 60.0, n, case["seed"] + 3, etype="Consume")
+    sim = mksim([inv, per, ful, out, waste, sup], n + 200, sources=[a, b, c], events=[per.start_event()])
+    return Scenario(sim, workload=3 * n)
+
+
+@family("industrial_split_preempt", "strkeys")
+def f_industrial_split_preempt(case):
+    from happysimulator.components import industrial as ind
+    k = K(case)
+    merged, reneged, served = Sink("merged"), Sink("reneged"), Sink("served")
+    workers = [Replier(f"w{i}", ticks(1 + (k[i] + i) % 5), value=f"r{i}") for i in range(2 + k[3] % 2)]
+    sm = ind.SplitMerge("split", workers, merged)
+    res = ind.PreemptibleResource("machine", capacity=1 + k[4] % 2)
+
+    def user(self, e):
+        pr = float(e.context.get("prio", 0))
+        hit = []
+        g = yield res.acquire(1, priority=pr, preempt=bool(k[5] % 2), on_preempt=lambda: hit.append(1))
+        yield ticks(1 + k[6] % 4)
+        if not g.preempted:
+            g.release()
+        self.log.append((pr, bool(hit)))
+    users = [Proc(f"user{i}", user) for i in range(3)]
+
+    class Teller(ind.RenegingQueuedResource):
+        def _handle_served_event(self, event):
+            yield ticks(1 + k[7] % 4)
+            return [Event(time=self.now, event_type="Served", target=served, context=event.context)]
+    teller = Teller("teller", reneged_target=reneged, default_patience_s=ticks(2 + k[0] % 6))
+    n = 30
+    srcs = [const_source("s_split", sm, 2, n, case["seed"]), poisson_source("s_tell", teller, 150.0, n, case["seed"] + 1)]
+    srcs += [const_source(f"s_u{i}", u, 2 + i, n, case["seed"] + 2 + i) for i, u in enumerate(users)]
+    sim = mksim([sm, res, teller, merged, reneged, served] + workers + users, n + 200, sources=srcs)
+    return Scenario(sim, workload=5 * n, extra=lambda: {"users": [u.log for u in users]})
+
+
+# ------------------------------------------------------------------------------ rate limiting
+def mk_rl_policy(idx, a, b):
+    from happysimulator.components.rate_limiter import policy as rp
+    a, b = a % 8, b % 8
+    i = idx % 5
+    if i == 0:
+        return rp.TokenBucketPolicy(capacity=float(1 + a % 4), refill_rate=64.0 + 32 * b, initial_tokens=float(a % 2))
+    if i == 1:
+        return rp.LeakyBucketPolicy(leak_rate=64.0 + 32 * b)
+    if i == 2:
+        return rp.SlidingWindowPolicy(window_size_seconds=ticks(4 + 2 * a), max_requests=1 + b % 4)
+    if i == 3:
+        return rp.FixedWindowPolicy(requests_per_window=1 + b % 4, window_size=ticks(4 + 2 * a))
+    return rp.AdaptivePolicy(initial_rate=100.0 + 20 * a, min_rate=20.0, max_rate=400.0, window_size=ticks(8 + 4 * b))
+
+
+@family("rate_limited_entity", "strkeys")
+def f_rate_limited_entity(case):
+    from happysimulator.components.rate_limiter import NullRateLimiter, RateLimitedEntity
+    from happysimulator.components.server.server import Server
+    k = K(case)
+    sink = Sink("sink")
+    srv = Server("srv", concurrency=2, service_time=ConstantLatency(ticks(1 + k[3] % 3)), downstream=sink)
+    rl = RateLimitedEntity("limiter", srv, mk_rl_policy(k[0], k[1], k[2]), queue_capacity=[1000, 5][k[4] % 2])
+    null = NullRateLimiter("null", rl)
+    n = 50
+    a = const_source("a", rl, 1 + k[5] % 2, n, case["seed"])
+    b = poisson_source("b", null, 120.0, n, case["seed"] + 1)
+    sim = mksim([rl, null, srv, sink], n + 400, sources=[a, b])
+    return Scenario(sim, workload=2 * n)
+
+
+@family("inductor", "modrng")
+def f_inductor(case):
+    from happysimulator.components.rate_limiter import Inductor
+    from happysimulator.components.server.server import Server
+    k = K(case)
+    sink = Sink("sink")
+    srv = Server("srv", concurrency=2, service_time=ConstantLatency(ticks(1 + k[1] % 3)), downstream=sink)
+    ind = Inductor("inductor", srv, time_constant=ticks(4 + k[0] % 40), queue_capacity=[10000, 6][k[2] % 2])
+    n = 60
+    a = const_source("a", ind, 2 + k[3] % 3, n, case["seed"])
+    burst = poisson_source("burst", ind, 200.0 + 50 * (k[4] % 4), n // 2, case["seed"] + 1)
+    sim = mksim([ind, srv, sink], n + 400, sources=[a, burst])
+    return Scenario(sim, workload=2 * n)
+
+
+@family("distributed_rate_limiter", "strkeys")
+def f_distributed_rate_limiter(case):
+    from happysimulator.components.datastore import KVStore
+    from happysimulator.components.rate_limiter import DistributedRateLimiter
+    k = K(case)
+    sink = Sink("sink")
+    redis = KVStore("redis", read_latency=ticks(1 + k[0] % 3), write_latency=ticks(1 + k[1] % 3))
+    lims = [DistributedRateLimiter(f"lim{i}", sink, redis, global_limit=2 + k[2] % 8, window_size=ticks(8 + 4 * (k[3] % 6)),
+                                   local_threshold=[0.8, 0.5][k[4] % 2]) for i in range(2 + k[5] % 2)]
+    n = 40
+    srcs = [const_source(f"s{i}", lim, 1 + (k[6] + i) % 3, n, case["seed"] + i) for i, lim in enumerate(lims)]
+    srcs.append(poisson_source("p", lims[0], 100.0, n, case["seed"] + 9))
+    sim = mksim(lims + [redis, sink], n + 200, sources=srcs)
+    return Scenario(sim, workload=len(srcs) * n)
+
+
+# ------------------------------------------------------------------------------ network
+def mk_link(name, idx, a, b):
+    from happysimulator.components.network import conditions as nc
+    from happysimulator.components.network.link import NetworkLink
+    i = idx % 6
+    if i == 0:
+        return NetworkLink(name, latency=ConstantLatency(ticks(1 + a % 5)))
+    if i == 1:
+        return NetworkLink(name, latency=ConstantLatency(ticks(1 + a % 5)), jitter=ExponentialLatency(ticks(1 + b % 3)),
+                           packet_loss_rate=[0.0, 0.1, 0.3][b % 3], bandwidth_bps=1_000_000.0)
+    if i == 2:
+        return nc.lossy_network([0.05, 0.2, 0.5][a % 3], name=name, base_latency=ticks(1 + b % 4))
+    if i == 3:
+        return nc.slow_network(ticks(3 + a % 8), name=name)
+    if i == 4:
+        return nc.local_network(name)
+    return nc.datacenter_network(name)
+
+
+@family("network_pingpong", "modrng", "strkeys")
+def f_network_pingpong(case):
+    from happysimulator.components.network.network import Network
+    k = K(case)
+    net = Network("net", default_link=mk_link("default", k[7], k[0], k[1]) if k[6] % 2 else None)
+    nodes = []
+
+    def node_fn(self, e):
+        md = e.context.get("metadata", {})
+        if e.event_type == "Kick":
+            peers = [p for p in nodes if p is not self]
+            dst = peers[(md.get("i", 0) + self.events_received) % len(peers)]
+            return [net.send(self, dst, "Ping", payload={"hops": 2 + k[5] % 3, "payload_size": 200})]
+        if e.event_type in ("Ping", "Pong"):
+            self.log.append((e.event_type, md.get("source")))
+            hops = md.get("hops", 0)
+            if hops > 0:
+                src = next((p for p in nodes if p.name == md.get("source")), None)
+                if src is not None:
+                    return [net.send(self, src, "Pong" if e.event_type == "Ping" else "Ping", payload={"hops": hops - 1})]
+        return None
+    nodes += [Proc(f"n{i}", node_fn) for i in range(3 + k[4] % 2)]
+    for i, a in enumerate(nodes):
+        for j, b in enumerate(nodes):
+            if i < j and (i + j + k[3]) % 4 != 0:
+                net.add_bidirectional_link(a, b, mk_link(f"l{i}{j}", k[(i + j) % 3] + i, k[0] + j, k[1] + i))
+            elif i < j and not k[6] % 2:
+                net.add_link(a, b, mk_link(f"l{i}{j}", 0, k[2], 0))
+                net.add_link(b, a, mk_link(f"l{j}{i}", 0, k[2] + 1, 0))
+    evs = []
+    n = 40
+    for t in range(n):
+        evs.append(Event(time=T(1 + 2 * t), event_type="Kick", target=nodes[t % len(nodes)], context={"metadata": {"i": t}}))
+    held = {}
+    evs.append(Event.once(T(20 + k[2] % 10), "Partition",
+                          lambda e: held.setdefault("p", net.partition(nodes[:1], nodes[1:], asymmetric=bool(k[3] % 2))) and None))
+    evs.append(Event.once(T(45 + k[2] % 10), "Heal", lambda e: held["p"].heal() if "p" in held else None))
+    sim = mksim([net] + nodes, 2 * n + 200, events=evs)
+    return Scenario(sim, workload=n, extra=lambda: {"matrix": net.traffic_matrix(), "routed": net.events_routed,
+                                                      "dropped_partition": net.events_dropped_partition,
+                                                      "dropped_no_route": net.events_dropped_no_route,
+                                                      "logs": [p.log for p in nodes]})
+
+
+@family("network_link_pipeline", "modrng")
+def f_network_link_pipeline(case):
+    from happysimulator.components.random_router import RandomRouter
+    from happysimulator.components.server.server import Server
+    k = K(case)
+    sink = Sink("sink")
+    srvs = [Server(f"srv{i}", concurrency=1 + i, service_time=ConstantLatency(ticks(1 + (k[i] % 3))), downstream=sink) for i in range(2)]
+    links = [mk_link(f"wire{i}", k[2 + i], k[4], k[5]) for i in range(2)]
+    for l, s in zip(links, srvs):
+        l.egress = s
+    router = RandomRouter("router", targets=links)
+    n = 50
+    a = const_source("a", router, 1 + k[6] % 2, n, case["seed"])
+    b = poisson_source("b", links[0], 100.0, n, case["seed"] + 1)
+    sim = mksim([router, sink] + links + srvs, n + 300, sources=[a, b])
+    return Scenario(sim, workload=2 * n, extra=lambda: {l.name: l.link_stats for l in links})
+
+
+# ------------------------------------------------------------------------------ load balancing
+LB_STRATEGIES = ["RoundRobin", "WeightedRoundRobin", "Random", "LeastConnections", "WeightedLeastConnections",
+                 "LeastResponseTime", "IPHash", "ConsistentHash", "PowerOfTwoChoices"]
+
+
+@family("load_balancer", "hashroute", "strkeys", "modrng")
+def f_load_balancer(case):
+    from happysimulator.components.load_balancer import strategies as ls
+    from happysimulator.components.load_balancer.health_check import HealthChecker
+    from happysimulator.components.load_balancer.load_balancer import LoadBalancer
+    from happysimulator.components.server.server import Server
+    k = K(case)
+    sink = Sink("sink")
+    name = pick(LB_STRATEGIES, k[0])
+    if name == "ConsistentHash":
+        strat = ls.ConsistentHash(virtual_nodes=1 + k[1] % 20)
+    elif name == "LeastResponseTime":
+        strat = ls.LeastResponseTime(alpha=[0.3, 0.8][k[1] % 2])
+    else:
+        strat = getattr(ls, name)()
+    nb = 2 + k[2] % 3
+    backends = [Server(f"be{i}", concurrency=1 + (k[3] + i) % 2, service_time=ExponentialLatency(ticks(1 + (k[4] + i) % 4)),
+                       downstream=sink) for i in range(nb)]
+    slow = Replier("be_slow", ticks(12 + k[5] % 20), downstream=sink)
+    lb = LoadBalancer("lb", strategy=strat)
+    for i, b in enumerate(backends + [slow]):
+        lb.add_backend(b, weight=1 + (k[6] + i) % 3)
+    hc = HealthChecker("hc", lb, interval=ticks(8 + k[7] % 8), timeout=ticks(3 + k[1] % 5), healthy_threshold=1 + k[2] % 2,
+                       unhealthy_threshold=1 + k[3] % 2)
+    n = 36
+    a = const_source("a", lb, 1 + k[4] % 2, n, case["seed"])
+    b = poisson_source("b", lb, 120.0, n, case["seed"] + 1)
+    sim = mksim([lb, hc, slow, sink] + backends, n + 200, sources=[a, b])
+    sim.schedule(hc.start())
+    return Scenario(sim, workload=2 * n, extra=lambda: {"healthy": sorted(b.name for b in lb.healthy_backends),
+                                                          "per_backend": {b.name: lb.get_backend_info(b).total_requests for b in lb.all_backends}})
+
+
+# ------------------------------------------------------------------------------ clients
+def mk_retry(idx, a, b):
+    from happysimulator.components.client import retry as rt
+    i = idx % 4
+    if i == 0:
+        return rt.NoRetry()
+    if i == 1:
+        return rt.FixedRetry(max_attempts=2 + a % 3, delay=ticks(1 + b % 4))
+    if i == 2:
+        return rt.ExponentialBackoff(max_attempts=2 + a % 3, initial_delay=ticks(1 + b % 3), max_delay=ticks(16),
+                                     multiplier=2.0, jitter=[0.0, 0.5][a % 2])
+    return rt.DecorrelatedJitter(max_attempts=2 + a % 3, base_delay=ticks(1 + b % 3), max_delay=ticks(16))
+
+
+@family("client_retry", "modrng")
+def f_client_retry(case):
+    from happysimulator.components.client.client import Client
+    from happysimulator.components.server.server import Server
+    k = K(case)
+    outcomes = Collector("outcomes")
+    rnd = rng_of(case, 3)
+    backend = Replier("backend", lambda e: ticks(1 + rnd.randrange(2 + k[0] % 10)))
+    srv = Server("srv", concurrency=1, service_time=ConstantLatency(ticks(1 + k[1] % 4)))
+    counts = {"ok": 0, "fail": 0}
+    ok = lambda req, resp: counts.__setitem__("ok", counts["ok"] + 1)  # noqa: E731
+    fail = lambda req, why: counts.__setitem__("fail", counts["fail"] + 1)  # noqa: E731
+    c1 = Client("c1", backend, timeout=ticks(2 + k[2] % 6), retry_policy=mk_retry(k[3], k[4], k[5]), on_success=ok, on_failure=fail)
+    c2 = Client("c2", srv, timeout=[None, ticks(3 + k[6] % 5)][k[7] % 2], retry_policy=mk_retry(k[3] + 1, k[5], k[4]),
+                on_success=ok, on_failure=fail)
+    users = [Proc(f"user{i}", (lambda c: lambda self, e: [c.send_request(payload={"n": self.events_received}, event_type="GetUser")])(c))
+             for i, c in enumerate([c1, c2, c1])]
+    n = 36
+    srcs = [const_source(f"s{i}", u, 1 + (k[i] % 3), n, case["seed"] + i, etype="Go") for i, u in enumerate(users)]
+    sim = mksim([c1, c2, backend, srv, outcomes] + users, n + 300, sources=srcs)
+    return Scenario(sim, workload=3 * n, extra=lambda: dict(counts))
+
+
+@family("pooled_client", "modrng")
+def f_pooled_client(case):
+    from happysimulator.components.client.connection_pool import ConnectionPool
+    from happysimulator.components.client.pooled_client import PooledClient
+    k = K(case)
+    rnd = rng_of(case, 5)
+    backend = Replier("backend", lambda e: ticks(1 + rnd.randrange(1 + k[0] % 6)))
+    pool = ConnectionPool("pool", backend, min_connections=k[1] % 2, max_connections=1 + k[2] % 3,
+                          connection_timeout=ticks(10 + k[3] % 30), idle_timeout=ticks(5 + k[4] % 40),
+                          connection_latency=ConstantLatency(ticks(1 + k[5] % 3)))
+    pc = PooledClient("pc", pool, timeout=ticks(3 + k[6] % 8), retry_policy=mk_retry(k[7], k[0], k[1]))
+    held = []
+
+    def direct(self, e):
+        try:
+            conn = yield from pool.acquire()
+        except TimeoutError:
+            self.log.append("timeout")
+            return None
+        yield ticks(1 + k[0] % 3)
+        self.log.append("used")
+        return pool.release(conn)
+    users = [Proc("u_pc", lambda self, e: [pc.send_request(payload=self.events_received, event_type="Query")]),
+             Proc("u_direct", direct), Proc("u_direct2", direct)]
+    n = 30
+    srcs = [const_source(f"s{i}", u, 1 + (k[i + 2] % 3), n, case["seed"] + i, etype="Go") for i, u in enumerate(users)]
+    sim = mksim([pc, pool, backend] + users, n + 300, sources=srcs)
+    return Scenario(sim, workload=3 * n, extra=lambda: {"direct": [u.log for u in users[1:]]})
+
+
+# ------------------------------------------------------------------------------ resilience wrappers
+@family("resilience_chain", "modrng")
+def f_resilience_chain(case):
+    """source -> Fallback(primary = Timeout(CircuitBreaker(Bulkhead(backend))), fallback = backend2); Hedge beside it."""
+    from happysimulator.components import resilience as rs
+    k = K(case)
+    rnd = rng_of(case, 7)
+    backend = Replier("backend", lambda e: ticks(1 + rnd.randrange(1 + k[0] % 12)))
+    backend2 = Replier("backend2", ticks(1 + k[1] % 3))
+    bh = rs.Bulkhead("bulkhead", backend, max_concurrent=1 + k[2] % 3, max_wait_queue=k[3] % 4,
+                     max_wait_time=[None, ticks(2 + k[4] % 6)][k[4] % 2])
+    cb = rs.CircuitBreaker("breaker", bh, failure_threshold=1 + k[5] % 3, success_threshold=1 + k[6] % 2, timeout=ticks(6 + k[7] % 20),
+                           half_open_max_requests=1 + k[0] % 2, failure_predicate=lambda e: e.context.get("prio", 0) == 3)
+    tw = rs.TimeoutWrapper("timeout", cb, timeout=ticks(2 + k[1] % 8))
+    fb = rs.Fallback("fallback", tw, backend2 if k[2] % 2 else (lambda e: None), timeout=[None, ticks(3 + k[3] % 6)][k[5] % 2],
+                     failure_predicate=lambda e: e.context.get("prio", 0) == 2)
+    hedged = Replier("hedged_backend", lambda e: ticks(1 + rnd.randrange(1 + k[4] % 10)))
+    hg = rs.Hedge("hedge", hedged, hedge_delay=ticks(1 + k[6] % 5), max_hedges=1 + k[7] % 2)
+    n = 40
+    srcs = [const_source("a", fb, 1 + k[0] % 2, n, case["seed"]), poisson_source("b", fb, 150.0, n, case["seed"] + 1),
+            const_source("c", hg, 1 + k[1] % 3, n, case["seed"] + 2), poisson_source("d", bh, 80.0, n, case["seed"] + 3)]
+    sim = mksim([fb, tw, cb, bh, hg, backend, backend2, hedged], n + 300, sources=srcs)
+    return Scenario(sim, workload=4 * n, extra=lambda: {"cb_state": cb.state})
+
+
+# ------------------------------------------------------------------------------ sync primitives + Resource
+def _rel(evs):
+    """Schedule the events a release() returned (documented: 'return mutex.release()')."""
+    return evs if evs else None
+
+
+def _sync_sim(case, prims, worker_fn, nworkers, rounds, extra=None):
+    k = K(case)
+    workers = [Proc(f"w{i}", worker_fn) for i in range(nworkers)]
+    evs = []
+    for i, w in enumerate(workers):
+        for r in range(rounds):
+            evs.append(ev(1 + r * (6 + k[7] % 6) + (i * (1 + k[6] % 3)) % 5, w, "Work", i=i, r=r))
+    sim = mksim(list(prims) + workers, rounds * 12 + 300, events=evs)
+    return Scenario(sim, workload=nworkers * rounds,
+                    extra=lambda: {"logs": [w.log for w in workers], **(extra() if extra else {})})
+
+
+@family("sync_mutex")
+def f_sync_mutex(case):
+    from happysimulator.components.sync import Mutex
+    k = K(case)
+    m = Mutex("mutex")
+
+    def work(self, e):
+        yield ticks(e.context["i"] % 2)         # staggered arrival (0 or 1 tick)
+        yield from m.acquire(owner=self.name)
+        yield ticks(1 + (k[0] + e.context["i"]) % 4)
+        self.log.append(("cs", self.now.nanoseconds // TICK))
+        return _rel(m.release())
+    return _sync_sim(case, [m], work, 2 + k[1] % 3, 2 + k[2] % 4)
+
+
+@family("sync_semaphore")
+def f_sync_semaphore(case):
+    from happysimulator.components.sync import Semaphore
+    k = K(case)
+    cap = 1 + k[0] % 3
+    s = Semaphore("sem", initial_count=cap)
+
+    def work(self, e):
+        c = 1 + (e.context["i"] + k[3]) % cap
+        yield from s.acquire(c)
+        yield ticks(1 + (k[1] + e.context["r"]) % 4)
+        self.log.append(("held", c, self.now.nanoseconds // TICK))
+        return _rel(s.release(c))
+    return _sync_sim(case, [s], work, 3 + k[2] % 2, 2 + k[4] % 3)
+
+
+@family("sync_rwlock")
+def f_sync_rwlock(case):
+    from happysimulator.components.sync import RWLock
+    k = K(case)
+    lock = RWLock("rwlock", max_readers=[None, 2][k[0] % 2])
+
+    def work(self, e):
+        writer = (e.context["i"] + e.context["r"] + k[1]) % 3 == 0
+        if writer:
+            yield from lock.acquire_write()
+            yield ticks(1 + k[2] % 3)
+            self.log.append(("w", self.now.nanoseconds // TICK))
+            return _rel(lock.release_write())
+        yield from lock.acquire_read()
+        yield ticks(1 + k[3] % 3)
+        self.log.append(("r", self.now.nanoseconds // TICK))
+        return _rel(lock.release_read())
+    return _sync_sim(case, [lock], work, 3 + k[4] % 2, 2 + k[5] % 3)
+
+
+@family("sync_barrier")
+def f_sync_barrier(case):
+    from happysimulator.components.sync import Barrier
+    k = K(case)
+    parties = 2 + k[0] % 3
+    b = Barrier("barrier", parties=parties)
+
+    def work(self, e):
+        yield ticks(1 + (e.context["i"] * (1 + k[1] % 3)) % 5)
+        idx = yield from b.wait()
+        self.log.append((idx, self.now.nanoseconds // TICK))
+        yield ticks(1)
+    return _sync_sim(case, [b], work, parties, 2 + k[2] % 3)
+
+
+@family("sync_condition")
+def f_sync_condition(case):
+    from happysimulator.components.sync import Condition, Mutex
+    k = K(case)
+    m = Mutex("cv_mutex")
+    cv = Condition("not_empty", lock=m)
+    box = []
+
+    def work(self, e):
+        i = e.context["i"]
+        if i % 2 == 0:                                   # consumer (documented pattern)
+            yield ticks(1)
+            yield from m.acquire()
+            while not box:
+                yield from cv.wait()
+            self.log.append(("got", box.pop(0), self.now.nanoseconds // TICK))
+            return _rel(m.release())
+        yield ticks(2 + (k[0] + i) % 4)                  # producer: one item per consumer round
+        yield from m.acquire()
+        box.append((i, e.context["r"]))
+        evs = cv.notify() if k[1] % 2 else cv.notify_all()
+        return _rel(m.release() + evs)
+    return _sync_sim(case, [m, cv], work, 2 * (1 + k[2] % 2), 2 + k[3] % 3, extra=lambda: {"left": list(box)})
+
+
+@family("resource_contention")
+def f_resource_contention(case):
+    from happysimulator.components.resource import Resource
+    k = K(case)
+    cap = 2 + k[0] % 3
+    res = Resource("cpu", capacity=cap)
+
+    def work(self, e):
+        amt = 1 + (e.context["i"] + k[1]) % cap
+        g = yield res.acquire(amount=amt)
+        yield ticks(1 + (k[2] + e.context["r"]) % 4)
+        g.release()
+        self.log.append((amt, self.now.nanoseconds // TICK))
+        t = res.try_acquire(amount=1)
+        if t is not None:
+            yield ticks(1)
+            t.release()
+    return _sync_sim(case, [res], work, 4 + k[3] % 3, 5 + k[4] % 4)
+
+
+# ------------------------------------------------------------------------------ messaging
+@family("message_queue", "strkeys")
+def f_message_queue(case):
+    from happysimulator.components.messaging import DeadLetterQueue, MessageQueue
+    k = K(case)
+    dlq = DeadLetterQueue("dlq", capacity=[None, 5][k[0] % 2], retention_period=[None, ticks(40)][k[1] % 2])
+    q = MessageQueue("mq", delivery_latency=ticks(1 + k[2] % 4), redelivery_delay=ticks(2 + k[3] % 6),
+                     max_redeliveries=1 + k[4] % 3, capacity=[None, 8][k[5] % 2], dead_letter_queue=dlq)
+    rnd = rng_of(case, 11)
+
+    def consume(self, e):
+        if e.event_type != "message_delivery":
+            return None
+        mid = e.context["message_id"]
+        yield ticks(1 + rnd.randrange(3))
+        roll = rnd.randrange(10)
+        out = [Event(time=self.now, event_type="poll", target=q)]
+        if roll < 6:
+            q.acknowledge(mid)
+            self.log.append("ack")
+        elif roll < 8:
+            q.reject(mid, requeue=bool(roll % 2))
+            self.log.append("reject")
+        else:
+            ev_ = from_lib(q, q.schedule_redelivery(mid))
+            self.log.append("timeout")
+            if ev_ is not None:
+                out.append(ev_)
+        return out
+    cons = [Proc(f"cons{i}", consume) for i in range(2 + k[6] % 2)]
+    for c in cons:
+        q.subscribe(c)
+
+    def produce(self, e):
+        try:
+            yield from q.publish(Event(time=self.now, event_type="payload", target=self, context={"n": self.events_received}))
+        except RuntimeError:
+            self.log.append("full")
+            return None
+        return [Event(time=self.now, event_type="poll", target=q)]
+    prods = [Proc(f"prod{i}", produce) for i in range(2)]
+
+    def admin(self, e):
+        return from_lib(dlq, dlq.reprocess_all(q)) + [Event(time=self.now, event_type="cleanup", target=dlq)]
+    adm = Proc("admin", admin)
+    n = 30
+    srcs = [const_source(f"s{i}", p, 1 + (k[7] + i) % 3, n, case["seed"] + i, etype="Go") for i, p in enumerate(prods)]
+    srcs.append(const_source("poller", q, 3, n + 60, case["seed"] + 5, etype="poll"))
+    srcs.append(const_source("adm", adm, 17, n + 60, case["seed"] + 6, etype="Go"))
+    sim = mksim([q, dlq, adm] + cons + prods, n + 300, sources=srcs)
+    return Scenario(sim, workload=3 * n, extra=lambda: {"cons": [sorted(c.log) for c in cons], "dlq": dlq.message_count})
+
+
+@family("topic_pubsub", "strkeys")
+def f_topic_pubsub(case):
+    from happysimulator.components.messaging import Topic
+    k = K(case)
+    topic = Topic("topic", delivery_latency=ticks(1 + k[0] % 4))
+    if k[1] % 2:
+        topic.set_retain_messages(True, max_history=2 + k[2] % 5)
+    subs = [Collector(f"sub{i}") for i in range(2 + k[3] % 3)]
+    for sb in subs[:-1]:
+        topic.subscribe(sb)
+
+    def pub(self, e):
+        msg = Event(time=self.now, event_type="payload", target=self, context={"n": self.events_received})
+        mode = (self.events_received + k[4]) % 3
+        if mode == 0:
+            evs = yield from topic.publish(msg)
+            return from_lib(topic, evs)
+        if mode == 1:
+            return from_lib(topic, topic.publish_sync(msg))
+        return [Event(time=self.now, event_type="publish", target=topic, context={"payload": msg})]
+    pubs = [Proc(f"pub{i}", pub) for i in range(2)]
+
+    def churn(self, e):
+        sb = subs[self.events_received % len(subs)]
+        if self.events_received % 2:
+            topic.unsubscribe(sb)
+            return None
+        return from_lib(topic, topic.subscribe(sb, replay_history=bool(k[5] % 2)))
+    ch = Proc("churn", churn)
+    n = 30
+    srcs = [const_source(f"s{i}", p, 1 + (k[6] + i) % 3, n, case["seed"] + i, etype="Go") for i, p in enumerate(pubs)]
+    srcs.append(const_source("churner", ch, 7, n, case["seed"] + 4, etype="Go"))
+    sim = mksim([topic, ch] + subs + pubs, n + 200, sources=srcs)
+    return Scenario(sim, workload=3 * n)
+
+
+# ------------------------------------------------------------------------------ streaming
+@family("event_log_group", "strkeys", "hashroute")
+def f_event_log_group(case):
+    from happysimulator.components.streaming import consumer_group as cg
+    from happysimulator.components.streaming.event_log import EventLog, SizeRetention, TimeRetention
+    k = K(case)
+    pol = [None, TimeRetention(max_age_s=ticks(20 + k[0] % 20)), SizeRetention(max_records=3 + k[0] % 6)][k[1] % 3]
+    log = EventLog("log", num_partitions=1 + k[2] % 4, retention_policy=pol, append_latency=ticks(1 + k[3] % 3),
+                   read_latency=ticks(1), retention_check_interval=ticks(8 + k[4] % 8))
+    strat = [cg.RangeAssignment(), cg.RoundRobinAssignment(), cg.StickyAssignment()][k[5] % 3]
+    group = cg.ConsumerGroup("group", log, assignment_strategy=strat, rebalance_delay=ticks(1 + k[6] % 4), poll_latency=ticks(1))
+    rnd = rng_of(case, 13)
+
+    def produce(self, e):
+        rec = yield from log.append(e.context.get("key", "k"), self.events_received)
+        self.log.append((rec.partition, rec.offset))
+
+    def consume(self, e):
+        if getattr(self, "busy", False):
+            return None
+        self.busy = True
+        try:
+            if not getattr(self, "joined", False):
+                yield from group.join(self.name, self)
+                self.joined = True
+            recs = yield from group.poll(self.name, 1 + rnd.randrange(5))
+            offs = {}
+            for x in list(recs or []):
+                offs[x.partition] = max(offs.get(x.partition, 0), x.offset + 1)
+            if offs:
+                yield from group.commit(self.name, offs)
+            self.log.append(len(list(recs or [])))
+            if rnd.randrange(8) == 0:
+                yield from group.leave(self.name)
+                self.joined = False
+        finally:
+            self.busy = False
+        return None
+    prods = [Proc(f"prod{i}", produce) for i in range(2)]
+    cons = [Proc(f"cons{i}", consume) for i in range(2 + k[7] % 2)]
+
+    def reader(self, e):
+        recs = yield from log.read(self.events_received % log.num_partitions, 0, 4)
+        self.log.append(len(recs))
+    rd = Proc("reader", reader)
+    n = 30
+    srcs = [const_source(f"p{i}", p, 1 + i, n, case["seed"] + i, etype="Go") for i, p in enumerate(prods)]
+    srcs += [const_source(f"c{i}", c, 3 + i, n + 40, case["seed"] + 4 + i, etype="Poll") for i, c in enumerate(cons)]
+    srcs.append(const_source("r", rd, 5, n, case["seed"] + 9, etype="Go"))
+    sim = mksim([log, group, rd] + prods + cons, n + 250, sources=srcs)
+    return Scenario(sim, workload=5 * n, extra=lambda: {"hw": log.high_watermarks(), "lag": group.total_lag(),
+                                                          "cons": [c.log for c in cons], "prod": [p.log for p in prods]})
+
+
+@family("stream_processor", "strkeys")
+def f_stream_processor(case):
+    from happysimulator.components.streaming import stream_processor as sp
+    k = K(case)
+    out, late = Collector("windows"), Collector("late")
+    wt = [sp.TumblingWindow(size_s=ticks(4 + k[0] % 8)), sp.SlidingWindow(size_s=ticks(8 + k[0] % 8), slide_s=ticks(2 + k[1] % 4)),
+          sp.SessionWindow(gap_s=ticks(2 + k[1] % 5))][k[2] % 3]
+    policy = [sp.LateEventPolicy.DROP, sp.LateEventPolicy.UPDATE, sp.LateEventPolicy.SIDE_OUTPUT][k[3] % 3]
+    proc = sp.StreamProcessor("stream", wt, aggregate_fn=lambda recs: len(recs), downstream=out,
+                              allowed_lateness_s=ticks(k[4] % 6), late_event_policy=policy, side_output=late,
+                              watermark_interval_s=ticks(2 + k[5] % 6))
+    rnd = rng_of(case, 17)
+
+    def feed(self, e):
+        lag = rnd.choice([0, 0, 0, 1, 3, 12, 30])
+        t = max(0.0, self.now.to_seconds() - ticks(lag))
+        return [Event(time=self.now, event_type="Process", target=proc,
+                      context={"key": e.context.get("key", "k"), "value": self.events_received, "event_time_s": t})]
+    feeder = Proc("feeder", feed)
+    n = 60
+    srcs = [const_source("a", feeder, 1 + k[6] % 2, n, case["seed"], etype="Go"), poisson_source("b", feeder, 100.0, n, case["seed"] + 1, etype="Go")]
+    sim = mksim([proc, feeder, out, late], n + 200, sources=srcs)
     return Scenario(sim, workload=2 * n)
